@@ -363,3 +363,59 @@ Proof.
   - intros i Hp Hn. rewrite Hr. apply M. auto.
   - discriminate.
 Qed.
+
+(* ---------------------------------------------------------------- completeness / convergence, entry by entry *)
+(* The direct forms used against "the bucket is not there at all": [get_set] reads an absent string set as [],
+   [sidx_ids] an absent key bucket as [] - a missing entry is reported / repaired whatever the reason it is
+   missing (entry removed, bucket emptied, bucket removed, or the target never had a referrer / link). *)
+Lemma missing_backref_reported_lemma sch st s f t b nl i :
+  In (JCons s (CFkIndex f t b nl)) (jobs sch) ->
+  present sch st s i = true -> nonempty (fv_bytes (get_field sch st s i f)) = true ->
+  ~ In i (get_set sch st t (fv_bytes (get_field sch st s i f)) b) ->
+  fst (check_all sch false st) <> [].
+Proof.
+  intros Hj Hp Hne Hn H. apply check_complete_lemma in H.
+  destruct (consistent_backrefs_exact sch st H s f t b nl Hj) as [A T].
+  apply Hn. apply (A _ i (T i Hp Hne) Hne). split; [exact Hp | reflexivity].
+Qed.
+
+Lemma missing_reverse_link_reported_lemma sch st s lf os of_ i x :
+  In (JLink s (lf, os, of_)) (jobs sch) ->
+  present sch st s i = true -> In x (get_set sch st s i lf) -> ~ In i (get_set sch st os x of_) ->
+  fst (check_all sch false st) <> [].
+Proof.
+  intros Hj Hp Hx Hn H. apply check_complete_lemma in H. pose proof (H _ Hj) as G. cbn in G.
+  apply Hn. apply (G i Hp x Hx).
+Qed.
+
+Lemma missing_set_entry_reported_lemma sch st s f i v :
+  In (JCons s (CSetIdx f)) (jobs sch) ->
+  present sch st s i = true -> In v (get_set sch st s i f) -> ~ In i (sidx_ids st (root_of sch s) f v) ->
+  fst (check_all sch false st) <> [].
+Proof.
+  intros Hj Hp Hv Hn H. apply check_complete_lemma in H.
+  destruct (consistent_setidx_mirror sch st H s f Hj) as [A _]. apply Hn, A. split; assumption.
+Qed.
+
+(* after ONE fix run every referrer of an existing target is in that target's back-reference set, every link is
+   reciprocated and every set value is indexed - also when the set / bucket did not exist before the run *)
+Lemma fix_restores_backrefs_lemma sch st s f t b nl i :
+  wf_c09 sch = true -> In (JCons s (CFkIndex f t b nl)) (jobs sch) ->
+  let st' := snd (check_all sch true st) in
+  present sch st' s i = true -> nonempty (fv_bytes (get_field sch st' s i f)) = true ->
+  present sch st' t (fv_bytes (get_field sch st' s i f)) = true ->
+  In i (get_set sch st' t (fv_bytes (get_field sch st' s i f)) b).
+Proof.
+  intros Hwf Hj st' Hp Hne Ht. destruct (fix_convergent_lemma sch st Hwf) as [_ M].
+  pose proof (M _ Hj) as G. cbn in G. destruct G as [_ [B _]]. apply (B i Hp Hne Ht).
+Qed.
+
+Lemma fix_restores_reverse_links_lemma sch st s lf os of_ i x :
+  wf_c09 sch = true -> In (JLink s (lf, os, of_)) (jobs sch) ->
+  let st' := snd (check_all sch true st) in
+  present sch st' s i = true -> In x (get_set sch st' s i lf) ->
+  present sch st' os x = true /\ In i (get_set sch st' os x of_).
+Proof.
+  intros Hwf Hj st' Hp Hx. destruct (fix_convergent_lemma sch st Hwf) as [_ M].
+  pose proof (M _ Hj) as G. cbn in G. apply (G i Hp x Hx).
+Qed.
